@@ -38,6 +38,9 @@ class AbstractEntry:
         return 'Entry(%r)' % self.op
 
 
+EQUALITY_HELPERS = {'strict_equal', 'compare_strict'}
+
+
 class Evaluator:
     def __init__(self, env=None, consts=None, calls=None):
         self.env = dict(env or {})
@@ -128,6 +131,10 @@ class Evaluator:
             if t is False:
                 return self.ev(e.orelse)
             return UNKNOWN
+        if isinstance(e, ast.Call) and isinstance(e.func, ast.Name) and e.func.id in EQUALITY_HELPERS and len(e.args) == 2 and not e.keywords \
+                and e.func.id not in self.calls:
+            # a two-argument equality helper of the package (type-strict ==) is an equality test for the evaluator
+            return self.ev(ast.Compare(left=e.args[0], ops=[ast.Eq()], comparators=[e.args[1]]))
         if isinstance(e, ast.Compare):
             left = self.ev(e.left)
             res = True
